@@ -43,7 +43,7 @@ def workload(prop, tier, seed, stream, k):
         fmt = rnd.choice(["LP", "MPS"])
         text, _ = (iofmt.lp_text if fmt == "LP" else iofmt.mps_text)(m, rnd)
         if stream == "file-mutant":
-            text = mutate.mutate(text, rnd)
+            text = mutate.semantic_error(text, fmt, rnd) if k % 4 == 1 else mutate.mutate(text, rnd)
         fn = "in%d.%s" % (k, fmt.lower())
         files[fn] = mutate.to_bytes(text)
         via = rnd.choice(["read_prob p0 @W@/%s %s" % (fn, fmt), "get_prob p0 @W@/%s %s 0" % (fn, fmt), "get_prob p0 @W@/%s %s 1" % (fn, fmt),
